@@ -3,12 +3,15 @@ M: the crate's Serializer driven as serde drives it for values of the serde data
 maps with string/char keys, options, bytes) with symbolic leaves, from the MIR of variable.rs, against the JSON image serde_json documents."""
 from vf import explore as XP
 from .common import run_jobs
-from . import serdejob as SJ
+from . import serdejob as SJ, deserjob as DJ
 from .kscalar import run_kani_only
 NAMES = ['c14_ser_u8', 'c14_ser_u16', 'c14_ser_u32', 'c14_ser_u64', 'c14_ser_usize', 'c14_ser_i8', 'c14_ser_i16', 'c14_ser_i32', 'c14_ser_i64', 'c14_ser_isize', 'c14_ser_f64', 'c14_ser_f32',
          'c14_ser_bool_unit_char_option', 'c14_de_u8', 'c14_de_u32', 'c14_de_u64', 'c14_de_i8', 'c14_de_i32', 'c14_de_i64', 'c14_de_f64_bool']
 PROG = None
 def task(item):
+    if item[0] == 'de':
+        _, entry, depth, symn, dl = item
+        return DJ.deser_job(PROG, entry, dl, depth=depth, symbolic_numbers=symn)
     top, depth, dl = item
     return SJ.serde_job(PROG, top, depth, dl)
 def run(run):
@@ -18,12 +21,14 @@ def run(run):
     XP.run_translator_validation(run, PROG, every=8 if run.tier == 'quick' else 1)
     depth = 1 if run.tier == 'quick' else 2
     jobs = [(k, depth if k in SJ.COMPOSITE else 0, run.deadline) for k in SJ.LEAVES + SJ.COMPOSITE]
-    run_jobs(run, jobs, task, 'mirsym: serde data model values through the crate Serializer vs the serde_json image')
+    jobs += [('de', e, 1, True, run.deadline) for e in ('any', 'option', 'enum', 'newtype')] + [('de', e, 2, False, run.deadline) for e in ('any', 'option', 'enum', 'newtype')]
+    run_jobs(run, jobs, task, 'mirsym: serde data model values through the crate Serializer vs the serde_json image; Deserializer event streams vs serde_json')
     run.cands = [c for c in run.cands if c['key'].startswith('c14:')]
     run_kani_only(run, NAMES,
         bounds={'serialisation (K)': 'Variable::from_serializable(x) for EVERY value x of u8,u16,u32,u64,usize,i8,i16,i32,i64,isize,f32,f64 (non-finite -> null), bool, (), char, Option<u64>, with the real serde/serde_json code in the formula',
                 'deserialisation (K)': 'T::deserialize(Variable::Number(n)) for every u64 / negative i64 / finite f64 payload and T in u8,u32,u64,i8,i32,i64,f64,bool: value kept iff it fits, error otherwise',
+                'deserializer (M)': 'the visit_* event stream of `impl Deserializer for Variable` (deserialize_any / _option / _enum with all four variant access forms / _newtype_struct, through SeqDeserializer, MapDeserializer, EnumDeserializer, VariantDeserializer) on symbolic values (depth 1 with fully symbolic numbers, depth 2 structure) equals the stream serde_json::Value produces',
                 'data model (M)': f'every shape of the serde data model (16 leaf kinds, 10 composite kinds incl. unit/newtype/tuple/struct variants, maps with str and char keys incl. a duplicate key) nested to depth {depth} with <= 2 members, leaves symbolic (all integers of the width, all doubles, all chars)'},
-        outside=['the Deserializer side for containers (EnumDeserializer, VariantDeserializer, SeqDeserializer, MapDeserializer) is not driven: not claimed', '#[derive]-generated code of user types is represented by the sequence of Serializer calls the serde data model prescribes',
+        outside=['#[derive]-generated code of user types is represented by the sequence of Serializer calls the serde data model prescribes',
                  '128-bit integers, maps with non-string keys (excluded by the property)'],
         assumes=['Rc::drop_slow and fmt::format are stubbed in the Kani harnesses', 'serde_json image of the data model as documented by serde (harness/serdejob.py image())'], keyprefix='c14')
